@@ -31,6 +31,7 @@ EXPLANATION = (
     "one-byte setting is read-modify-written from one register at setting.offset. (R3) unknown ids never write (C18.R3). Float "
     "rounding of scaled values (int(float(v) * scale)) is a value-level question and is deliberately not decided."
     " (R4) write_setting hands the looked-up setting and the caller's value to _write_setting exactly once; write_setting('modbus-N', v) sends int(v) to register int(id[7:]) and read_setting('modbus-N') decodes it signed."
+    ' read_setting(id) for a known id returns the awaited read of exactly that setting.'
 )
 
 
@@ -144,6 +145,66 @@ def check(ctx: Ctx, rep: Report):
     r4_known_ids(ctx, rep)
 
 
+def known_id_read(ctx: Ctx, rep: Report, rule: str, fam: str, mname: str, lookup_src: str, readers):
+    """<fam>.<mname>(id): on every path on which the id was found (the looked-up object tested truthy) the method
+    returns the awaited result of reading exactly that object - it does not fall through to the 'modbus' escape, the
+    'unknown' error or another object."""
+    from ..replay import Replay
+    prog = ctx.prog
+    fn = prog.cls(fam).methods.get(mname)
+    if fn is None:
+        raise AnalysisError("%s.%s not found" % (fam, mname))
+    idp = fn.params[1]
+    lookup = Sym.for_function(prog, fn).lin(ast.parse(lookup_src % idp, mode="eval").body)
+    bad, nknown = None, 0
+    for p in enumerate_paths(prog, fn, no_raise):
+        rp = None
+        found = None
+        for i, ev in enumerate(p.events):
+            if ev.kind != "test":
+                continue
+            node, val = ev.node, bool(ev.data)
+            while isinstance(node, ast.UnaryOp) and isinstance(node.op, ast.Not):
+                node, val = node.operand, not val
+            if isinstance(node, ast.Compare) and len(node.ops) == 1 and isinstance(node.comparators[0], ast.Constant) and node.comparators[0].value is None:
+                val = (not val) if isinstance(node.ops[0], (ast.Is, ast.Eq)) else val
+                node = node.left
+            if isinstance(node, ast.NamedExpr):
+                node = node.value if not isinstance(node.target, ast.Name) else node.target
+            rp = rp or Replay(prog, fn, p)
+            if rp.sym_at(i + 1).lin(node) == lookup or (isinstance(node, ast.NamedExpr) and rp.sym_at(i + 1).lin(node.value) == lookup):
+                found = val
+        if not found:
+            continue
+        nknown += 1
+        ok = p.end == "return" and p.end_node.value is not None
+        if ok:
+            v = p.end_node.value
+            v = v.value if isinstance(v, ast.Await) else None
+            symv = rp.sym
+            for _ in range(4):          # returned by a helper that was spliced into the path: what the helper returns
+                via = p.inlined_return(v) if isinstance(v, ast.Call) else None
+                if via is None:
+                    break
+                symv = rp.sym_at(via[0])
+                v = via[1].value if isinstance(via[1], ast.Await) else via[1]
+            if isinstance(v, ast.Call) and call_chain(v) and call_chain(v)[0] == "self" and call_chain(v)[-1] in readers and len(v.args) == 1 and symv.lin(v.args[0]) == lookup:
+                continue
+            if isinstance(v, ast.Name) or v is None:
+                # returned through a local: find the awaited reader call on the path
+                calls = [ev.node for ev in p.events if ev.kind == "call" and (call_chain(ev.node) or ("", ""))[0] == "self" and (call_chain(ev.node) or ("",))[-1] in readers]
+                v = calls[-1] if len(calls) == 1 and rp.sym.lin(p.end_node.value) == rp.sym.lin(calls[-1]) else None
+            ok = isinstance(v, ast.Call) and call_chain(v) is not None and call_chain(v)[0] == "self" and call_chain(v)[-1] in readers and len(v.args) == 1 \
+                and rp.sym.lin(v.args[0]) == lookup
+        if not ok and bad is None:
+            bad = p
+    if nknown == 0:
+        raise AnalysisError("%s.%s: no path for a known id found" % (fam, mname))
+    rep.check(bad is None, rule, "known-id-read:%s.%s" % (fam, mname), fn.loc(), "%s.%s(known id) returns the awaited read of exactly that definition (%d paths)" % (fam, mname, nknown),
+              bad="%s.%s: for an id that was found the call does not return the awaited %s(<that definition>) [path %s]: a listed id is answered as 'unknown', by another register, or not at all" % (
+                  fam, mname, " / ".join(readers), bad.describe(8) if bad else ""))
+
+
 def r4_known_ids(ctx: Ctx, rep: Report):
     """write_setting(id, value) for an id found in self._settings hands exactly that setting object and the caller's
     value to _write_setting, once, on every path (R2 then decides what _write_setting sends); the 'modbus-N' escape
@@ -181,6 +242,9 @@ def r4_known_ids(ctx: Ctx, rep: Report):
         rep.check(bad is None, "C17.R4", "known-id:%s" % fam, fn.loc(), "%s.write_setting(known id, v) awaits _write_setting(<that setting>, v) exactly once (%d paths)" % (fam, nknown),
                   bad="%s.write_setting: for an id found in self._settings the call does not end in exactly one awaited self._write_setting(<that setting>, %s) [path %s]: nothing (or something else) is written" % (
                       fam, vp, bad.describe(8) if bad else ""))
+    # read_setting(id) for a known id returns what reading exactly that setting gives
+    for fam in ("ET", "DT"):
+        known_id_read(ctx, rep, "C17.R4", fam, "read_setting", "self._settings.get(%s)", ("_read_sensor", "_read_setting"))
     # modbus-N write: register = int(<id>[7:]), value = int(<value>), one write
     for fam in ("ET", "DT", "ES"):
         fn = prog.cls(fam).methods["write_setting"]
